@@ -2854,7 +2854,9 @@ Box<ITV>::propagate_constraint_no_check(const Constraint& c) {
           if (x_i.lower_is_open()) {
             open = T_YES;
           }
-          r = sub_mul_assign_r(t_bound, t_a, t_x, ROUND_UP);
+          // (Like all the other terms of this lower approximation of the
+          // numerator, this one has to be rounded downward.)
+          r = sub_mul_assign_r(t_bound, t_a, t_x, ROUND_DOWN);
           if (propagate_constraint_check_result(r, open)) {
             goto maybe_refine_upper_2;
           }
